@@ -35,7 +35,7 @@ FEED = dict(p_loss=0.04, n_foreign=(0, 2), max_polls=4, poll_every=(30.0, 120.0)
 
 
 def make_spec(st, idx, tier):
-    wk = dict(WORLD)
+    wk = dict(WORLD, prorated_p=0.3)
     if st.world.random() < 0.25:
         wk["equal_size"] = True  # ties in the weights -> non-unique medians are reachable
     spec = C.state_spec(st, tier, wk, PROFILE, FEED, min_units=24)
@@ -111,6 +111,8 @@ class Checker(C.BaseChecker):
                     break
             nontrivial = bool(unique) and len(set(res.tolist())) >= 2
             st.probes["median_unique" if unique else "median_not_unique"] += 1
+            if ex.world.get("prorated"):
+                st.probes["fractional_baseline_counts"] += 1
             if floor_active:
                 st.probes["prediction_floored_at_partial_count"] += 1
             st.state((p["pi_method"], e, min(6, len(rep) // 10), bool(unique), floor_active, min(3, len(non) // 10),
